@@ -39,7 +39,7 @@ def run_property(pid, cfg, replay=None, evidence_dir=None, write_evidence=True):
         report = mod.run(cfg)
         meta = getattr(mod, 'META', {})
         st_bad = []
-        if cfg.tier == 'thorough' and getattr(mod, 'SELFTEST', None) and not replay:
+        if cfg.tier == 'thorough' and getattr(mod, 'SELFTEST', None) and not replay and not os.environ.get('ACV_NO_SELFTEST'):
             from acv import selftest
             res = selftest.run(pid, mod.SELFTEST, cfg, report.findings)
             summary = {'fired': 0, 'silent': 0, 'skipped': 0, 'failed': 0}
